@@ -27,6 +27,8 @@ type FeatureLocal struct {
 	muxWriteReceived       sync.Mutex
 	writeApprovalReceived  map[string]map[model.MsgCounterType]int
 	pendingWriteApprovals  map[string]map[model.MsgCounterType]*time.Timer
+	// the remote entity that sent the write waiting for approval
+	pendingWriteApprovalEntities map[string]map[model.MsgCounterType]*model.EntityAddressType
 
 	bindings      []*model.FeatureAddressType // bindings to remote features
 	subscriptions []*model.FeatureAddressType // subscriptions to remote features
@@ -40,12 +42,13 @@ func NewFeatureLocal(id uint, entity api.EntityLocalInterface, ftype model.Featu
 			featureAddressType(id, entity.Address()),
 			ftype,
 			role),
-		entity:                entity,
-		functionDataMap:       make(map[model.FunctionType]api.FunctionDataCmdInterface),
-		responseMsgCallback:   make(map[model.MsgCounterType][]func(result api.ResponseMessage)),
-		writeApprovalReceived: make(map[string]map[model.MsgCounterType]int),
-		pendingWriteApprovals: make(map[string]map[model.MsgCounterType]*time.Timer),
-		writeTimeout:          defaultMaxResponseDelay,
+		entity:                       entity,
+		functionDataMap:              make(map[model.FunctionType]api.FunctionDataCmdInterface),
+		responseMsgCallback:          make(map[model.MsgCounterType][]func(result api.ResponseMessage)),
+		writeApprovalReceived:        make(map[string]map[model.MsgCounterType]int),
+		pendingWriteApprovals:        make(map[string]map[model.MsgCounterType]*time.Timer),
+		pendingWriteApprovalEntities: make(map[string]map[model.MsgCounterType]*model.EntityAddressType),
+		writeTimeout:                 defaultMaxResponseDelay,
 	}
 
 	for _, fd := range CreateFunctionData[api.FunctionDataCmdInterface](ftype) {
@@ -199,6 +202,7 @@ func (r *FeatureLocal) addPendingApproval(msg *api.Message) {
 	newTimer := time.AfterFunc(writeTimeout, func() {
 		r.muxResponseCB.Lock()
 		delete(r.pendingWriteApprovals[ski], *msg.RequestHeader.MsgCounter)
+		delete(r.pendingWriteApprovalEntities[ski], *msg.RequestHeader.MsgCounter)
 		r.muxResponseCB.Unlock()
 
 		err := model.NewErrorTypeFromString("write not approved in time by application")
@@ -210,6 +214,12 @@ func (r *FeatureLocal) addPendingApproval(msg *api.Message) {
 		r.pendingWriteApprovals[ski] = make(map[model.MsgCounterType]*time.Timer)
 	}
 	r.pendingWriteApprovals[ski][*msg.RequestHeader.MsgCounter] = newTimer
+	if msg.EntityRemote != nil {
+		if _, ok := r.pendingWriteApprovalEntities[ski]; !ok {
+			r.pendingWriteApprovalEntities[ski] = make(map[model.MsgCounterType]*model.EntityAddressType)
+		}
+		r.pendingWriteApprovalEntities[ski][*msg.RequestHeader.MsgCounter] = msg.EntityRemote.Address()
+	}
 	r.muxResponseCB.Unlock()
 }
 
@@ -266,6 +276,7 @@ func (r *FeatureLocal) ApproveOrDenyWrite(msg *api.Message, err model.ErrorType)
 	r.muxResponseCB.Lock()
 	defer r.muxResponseCB.Unlock()
 	delete(r.pendingWriteApprovals[ski], *msg.RequestHeader.MsgCounter)
+	delete(r.pendingWriteApprovalEntities[ski], *msg.RequestHeader.MsgCounter)
 
 	if err.ErrorNumber == 0 {
 		r.processWrite(msg)
@@ -297,6 +308,7 @@ func (r *FeatureLocal) CleanWriteApprovalCaches(ski string) {
 		timer.Stop()
 	}
 	delete(r.pendingWriteApprovals, ski)
+	delete(r.pendingWriteApprovalEntities, ski)
 }
 
 // Remove subscriptions and bindings from local cache for a remote device
@@ -333,6 +345,40 @@ func (r *FeatureLocal) CleanRemoteDeviceCaches(remoteAddress *model.DeviceAddres
 	r.bindings = bindings
 }
 
+// Remove the pending write approvals for writes sent by a removed remote entity
+func (r *FeatureLocal) cleanWriteApprovalCachesForEntity(remoteAddress *model.EntityAddressType) {
+	removed := make(map[string][]model.MsgCounterType)
+
+	r.muxResponseCB.Lock()
+	for ski, entities := range r.pendingWriteApprovalEntities {
+		for msgCounter, address := range entities {
+			if address == nil || address.Device == nil ||
+				*address.Device != *remoteAddress.Device ||
+				!reflect.DeepEqual(address.Entity, remoteAddress.Entity) {
+				continue
+			}
+
+			// stop the timer, the remote entity does not exist anymore
+			if timer, ok := r.pendingWriteApprovals[ski][msgCounter]; ok {
+				timer.Stop()
+				delete(r.pendingWriteApprovals[ski], msgCounter)
+			}
+			delete(entities, msgCounter)
+			removed[ski] = append(removed[ski], msgCounter)
+		}
+	}
+	r.muxResponseCB.Unlock()
+
+	// the received approvals are guarded by their own mutex, do not nest the locks
+	r.muxWriteReceived.Lock()
+	for ski, msgCounters := range removed {
+		for _, msgCounter := range msgCounters {
+			delete(r.writeApprovalReceived[ski], msgCounter)
+		}
+	}
+	r.muxWriteReceived.Unlock()
+}
+
 // Remove subscriptions and bindings from local cache for a remote entity
 // used if a remote entity is removed
 func (r *FeatureLocal) CleanRemoteEntityCaches(remoteAddress *model.EntityAddressType) {
@@ -341,6 +387,8 @@ func (r *FeatureLocal) CleanRemoteEntityCaches(remoteAddress *model.EntityAddres
 		remoteAddress.Entity == nil {
 		return
 	}
+
+	r.cleanWriteApprovalCachesForEntity(remoteAddress)
 
 	r.mux.Lock()
 	defer r.mux.Unlock()
